@@ -36,12 +36,12 @@ deriving Repr
 def Sock.all (st : Sock) : Bytes := st.buf ++ st.chunks.flatten
 
 /-- `while len(self._buffer) < num: if not self._recv(): return b""`.
-    A zero-length chunk models `recv()` returning `b""` (peer closed): `_recv` returns False. -/
+    The chunk list holds what the successful `recv()` calls return (non-empty by the socket API);
+    when it is exhausted `recv()` returns `b""` or raises — `_recv` returns False either way. -/
 def topUp (n : Nat) : Bytes → List Bytes → Option Sock
   | buf, [] => if n ≤ buf.length then some ⟨buf, []⟩ else none
   | buf, c :: cs =>
     if n ≤ buf.length then some ⟨buf, c :: cs⟩
-    else if c.isEmpty then none
     else topUp n (buf ++ c) cs
 
 /-- `SocketWrapper.read(n)` followed by `_read_bytes`'s classification -/
@@ -68,6 +68,6 @@ def sockSrc : Src Sock := ⟨sockRead, sockLine⟩
 def sockInit (chunks : List Bytes) : Sock :=
   match chunks with
   | [] => ⟨[], []⟩
-  | c :: cs => if c.isEmpty then ⟨[], c :: cs⟩ else ⟨c, cs⟩
+  | c :: cs => ⟨c, cs⟩
 
 end Ubx
